@@ -6,7 +6,8 @@ KNOBS = {'max_tasks': 7, 'fail_share': 0.2, 'spawn_fail_share': 0.08,
          'timeout_share': 0.08, 'sd_share': 0.3, 'cancel_prob': 0.3,
          'work_exc_prob': 0.45, 'io_fault_prob': 0.25, 'rich_sds': False,
          'out_bulk_prob': 0.12, 'rich_share': 0.3, 'soe_share': 0.2,
-         'preplaced_share': 0.12, 'exit_race': 0.15}
+         'preplaced_share': 0.12, 'exit_race': 0.15,
+         'named_env_prob': 0.12}
 
 
 def _nontrivial(sc, res):
